@@ -11,15 +11,15 @@ CHECK = {
              "1,2,3,4,8,16 threads; all canonical hashes (every MeshGL64 field, original IDs by rank; Polygons; triangle lists) must be "
              "equal within a stage and across stages. distinct_nontrivial = distinct shim schedule decision traces + distinct "
              "(profile, case, arena size) executions."),
-    "min_nontrivial": {"quick": 100, "thorough": 2000},
+    "min_nontrivial": {"quick": 100, "thorough": 1000},
     "cross_stage_equal": [["ser", "shim", "tbb", "serhuge", "shimhuge", "tbbhuge"]],
     "stages": [
         {"name": "ser", "variant": "ser", "harness": "c04_determinism.cpp",
-         "cases": {"quick": 26, "thorough": 156}, "params": _p(scale=1, schedules=1), "case_timeout": 900},
+         "cases": {"quick": 26, "thorough": 78}, "params": _p(scale=1, schedules=1), "case_timeout": 900},
         {"name": "shim", "variant": "shim", "harness": "c04_determinism.cpp",
-         "cases": {"quick": 26, "thorough": 156}, "params": _p(scale=1, schedules={"quick": 5, "thorough": 40}), "case_timeout": 1800},
+         "cases": {"quick": 26, "thorough": 78}, "params": _p(scale=1, schedules={"quick": 5, "thorough": 24}), "case_timeout": 1800},
         {"name": "tbb", "variant": "tbb", "harness": "c04_determinism.cpp", "max_workers": 4,
-         "cases": {"quick": 26, "thorough": 156}, "params": _p(scale=1, schedules={"quick": 4, "thorough": 18}), "case_timeout": 1800},
+         "cases": {"quick": 26, "thorough": 78}, "params": _p(scale=1, schedules={"quick": 4, "thorough": 10}), "case_timeout": 1800},
         {"name": "serhuge", "variant": "ser", "harness": "c04_determinism.cpp", "tiers": ["thorough"],
          "cases": 26, "params": {"seedgroup": "c04huge", "scale": 2, "schedules": 1}, "case_timeout": 1800},
         {"name": "shimhuge", "variant": "shim", "harness": "c04_determinism.cpp", "tiers": ["thorough"],
